@@ -32,8 +32,8 @@ MANIFEST = {
             "accepts or rejects count, search fields, sorting, alignment, extents, overlap, checksums (32-bit "
             "wrap-around on 16-bit halves), head adjustment, the result of header.Read+ReadTableBytes, and the "
             "agreement of golang.org/x/image/font/sfnt with the written font value.",
-    "note": "Trusted: TLC, the JSON trace encoding, golang.org/x/image as second implementation. Domain: at least one "
-            "non-nil table; a head entry is nil or at least 12 bytes long (a shorter one is not a head table). "
+    "note": "Trusted: TLC, the JSON trace encoding, golang.org/x/image as second implementation. Domain: table counts both "
+            "Write and Read accept (law: Write accepts n <=> Read accepts n); a head entry is nil or at least 12 bytes long (a shorter one is not a head table). "
             "x/image is compared on glyph count, units per em, cmap probes, advances, names (when it reports any) and "
             "the outlines of non-composite glyphs (CFF: path operators in order modulo closing line; TrueType: control "
             "points as multiset, on-curve points as subset). "
@@ -54,11 +54,14 @@ INVARIANT InvWellFormed
 INVARIANT InvLength
 INVARIANT InvPadZero
 INVARIANT InvRoundTrip
+INVARIANT InvAgree
 """
 
 
-def _cfg(tags, maxlen, headlens, nil, scalers, orders, gen=False):
+def _cfg(tags, maxlen, headlens, nil, scalers, orders, gen=False, limit=None):
+    tags = list(tags)
     s = "CONSTANTS\n"
+    s += "  Limit = %d\n" % (limit if limit is not None else len(tags))
     s += "  UseTags = {%s}\n" % ", ".join(str(t) for t in tags)
     s += "  MaxLen = %d\n" % maxlen
     s += "  HeadLens = {%s}\n" % ", ".join(str(t) for t in headlens)
@@ -100,7 +103,10 @@ def _sig(case, clause):
     tabs = case.get("tabs") or []
     head_nil = any(t["nil"] and t["tag"] == [104, 101, 97, 100] for t in tabs)
     other_nil = any(t["nil"] and t["tag"] != [104, 101, 97, 100] for t in tabs)
-    return {"kind": "map", "clause": clause, "op": "header.Write", "head_nil": head_nil, "nil_entries": other_nil}
+    sig = {"kind": "map", "clause": clause, "op": "header.Write", "head_nil": head_nil, "nil_entries": other_nil}
+    if case.get("law"):
+        sig["tables"] = sum(1 for t in tabs if not t["nil"])     # table-count sweep: one signature per count
+    return sig
 
 
 def _size(case):
@@ -133,9 +139,10 @@ def _replay_case(ctx, case, expect_clause=None, count=1, strict=True):
     if case.get("kind") == "font":
         inp = "font " + case.get("name", "")
     else:
-        inp = "header.Write(scaler=%s, {%s})" % (case.get("scaler"), ", ".join(
+        tabs = case.get("tabs") or []
+        inp = "header.Write(scaler=%s, {%s}%s)" % (case.get("scaler"), ", ".join(
             "%s: %s" % ("".join(chr(c) for c in t["tag"]), "nil" if t["nil"] else "%d bytes" % len(t["data"]))
-            for t in case.get("tabs") or []))
+            for t in tabs[:12]), " ... %d entries" % len(tabs) if len(tabs) > 12 else "")
     what = ("written file is not a well-formed container / not read back as written: clause '%s' of "
             "ContainerTrace rejects event %s of %s (file length %d); %d recorded case(s) fail with this signature; "
             "event: %s" % (clause, bad.get("ev"), inp, flen, count, json.dumps(bad)[:700]))
@@ -184,7 +191,15 @@ def _judge(ctx, trace, label, stats):
 
 def run(ctx):
     ctx.assumptions += [
-        "domain: at least one non-nil table; a head entry is nil or >= 12 bytes (a shorter one is not a head table)",
+        "a head entry is nil or >= 12 bytes (a shorter one is not a head table)",
+        "table counts: Write may refuse a map (error, nothing written) exactly if header.Read refuses an independently "
+        "assembled well-formed container with the same tables; swept at 0, 1, 2, 3 and 279..282 tables (the library's "
+        "limit is 280, header/tables.go), scaled to Limit = 3, 4, 8 in Container.tla (InvAgree)",
+        "whole fonts must contain head, hhea, hmtx, maxp, name, OS/2, post, their outline tables and (if the font value "
+        "has a character map) cmap; x/image may refuse only fonts without cmap (the unchanged tree writes none then); "
+        "TrueType Widths may be nil, empty, short or long (Font.Widths: missing = 0, surplus ignored); Font.Write "
+        "refuses zero-glyph fonts on the unchanged tree (CFF: error, TrueType: panic 'numGlyphs out of range'), they are "
+        "not in the sweep",
         "tags are 4 printable ASCII characters; scaler types 0x00010000, 'OTTO', 'true'",
         "the physical order of the tables is free (only recommended by the format); the directory checksum of head "
         "may be computed with checkSumAdjustment = 0 (OpenType) or in place (literal reading)",
@@ -194,15 +209,16 @@ def run(ctx):
     ]
     # 1. the design: exhaustive model checking of the layout function
     if ctx.quick():
-        models = [("5 tags, lengths 0..3", None),
-                  ("9 tags, lengths 0..0", _cfg(range(1, 10), 0, [54], True, ["otto"], ["recommended"]))]
+        models = [("5 tags, lengths 0..3, at most 4 tables", None),
+                  ("9 tags, lengths 0..0, at most 8 tables", _cfg(range(1, 10), 0, [54], True, ["otto"], ["recommended"], limit=8))]
         bounds = {"tags": "5 (absent/nil/0..3 bytes; head absent/nil/12/54/57) and 9 (absent/nil/empty)",
                   "scalers": 3, "orders": 2}
     else:
         models = [("5 tags, lengths 0..9", _cfg([1, 3, 4, 5, 6], 9, [12, 54, 57], True, ALL3, ["recommended"])),
                   ("5 tags, lengths 0..4, other orders", _cfg([1, 3, 4, 5, 6], 4, [12, 54, 57], True, ["ttf"], ["tag", "revtag"])),
                   ("6 tags, lengths 0..4", _cfg([1, 2, 3, 4, 5, 6], 4, [54, 55], True, ["ttf"], ["recommended", "tag"])),
-                  ("9 tags, lengths 0..1", _cfg(range(1, 10), 1, [54], True, ["otto"], ["recommended"]))]
+                  ("9 tags, lengths 0..1, at most 8 tables", _cfg(range(1, 10), 1, [54], True, ["otto"], ["recommended"], limit=8)),
+                  ("5 tags, lengths 0..2, at most 3 tables", _cfg([1, 3, 4, 5, 6], 2, [54], True, ["ttf"], ["recommended"], limit=3))]
         bounds = {"tags": "5 (absent/nil/0..9 bytes; head absent/nil/12/54/57), 5 (0..4, other orders), 6 (0..4), 9 (0..1)",
                   "scalers": 3, "orders": 3}
     for label, cfg in models:
